@@ -533,7 +533,21 @@ impl std::fmt::Display for Scad {
         for i in 0..self.children.len() {
             write!(f, "{}", self.children[i])?;
         }
-        if !self.children.is_empty() {
+        // every operation except the ten primitives opened a block above
+        let opened_block = !matches!(
+            self.op,
+            ScadOp::Circle { .. }
+                | ScadOp::Square { .. }
+                | ScadOp::Polygon { .. }
+                | ScadOp::Text { .. }
+                | ScadOp::Import { .. }
+                | ScadOp::Sphere { .. }
+                | ScadOp::Cube { .. }
+                | ScadOp::Cylinder { .. }
+                | ScadOp::Polyhedron { .. }
+                | ScadOp::Surface { .. }
+        );
+        if opened_block {
             write!(f, "}}")?;
         }
         writeln!(f)
